@@ -3,6 +3,11 @@
 //! `apply_recovered_state`, snapshots, restarts) vs model `Shard.step`.
 //! Oracle: every effective local write carries a stamp strictly greater than every stamp the
 //! node has observed for that key; issued stamps strictly increase.
+//! System level (`system_history`): a real `ReplicatedShardedState` (16 shard actors): histories
+//! over keys spread over shards, gossip from a peer, then for EVERY split of the history into
+//! checkpoint + deltas a fresh state with the same replica id is recovered through
+//! `apply_recovered_state(Some(checkpoint), deltas)` and written to; the model (`ShardedNode`,
+//! `recoverNode`) predicts every stamp, the oracle checks the property on the real deltas.
 use crate::enc::{hex, key_cmp, MCrdt, MLww, MRv};
 use crate::out::Out;
 use crate::rng::Rng;
@@ -82,12 +87,19 @@ pub fn run(a: &Args) {
     rt.block_on(async {
         // corpus first: the DESIGN.md §6.1 history (checkpoint-only recovery, then a write)
         history(&mut out, &mut Rng::new(0xC08), true).await;
+        for c in 0..3 {
+            system_history(&mut out, &mut Rng::new(0xC08), Some(c)).await;
+        }
         for _ in 0..a.n {
             let mut r = rng.fork();
             history(&mut out, &mut r, false).await;
         }
+        for _ in 0..(a.n / 4).max(10) {
+            let mut r = rng.fork();
+            system_history(&mut out, &mut r, None).await;
+        }
     });
-    out.finish("case = one node history of 5..40 ops on a real ReplicatedShardActor: local SET[EX]/DEL/HSET/HDEL on 3 colliding keys, remote deltas (dominated values from peers 2,3 with times around the local clock), snapshots, restarts that recover the snapshot as checkpoint values (ApplyRecoveredState) or as deltas or a subset; distinct by the op text of the history; non-trivial iff it contains an effective local write issued after a remote/recovered value of the same key");
+    out.finish("case = one node history of 5..40 ops on a real ReplicatedShardActor: local SET[EX]/DEL/HSET/HDEL on 3 colliding keys, remote deltas (dominated values from peers 2,3 with times around the local clock), snapshots, restarts that recover the snapshot as checkpoint values (ApplyRecoveredState) or as deltas or a subset; distinct by the op text of the history; non-trivial iff it contains an effective local write issued after a remote/recovered value of the same key. System-level case = one history of 3..12 ops (SET[EX]/DEL/HSET/HDEL/INCR on 6 keys over 4 of the 16 shards, gossip from a peer) on a real ReplicatedShardedState, then for every split point: fresh state, apply_recovered_state(checkpoint at the split [half of them through the real CheckpointWriter/Reader], own deltas after it), 3..5 writes, full snapshot; non-trivial iff some post-restart write lands on a shard that recovered something");
 }
 
 async fn history(out: &mut Out, rng: &mut Rng, corpus: bool) {
@@ -293,4 +305,373 @@ async fn history(out: &mut Out, rng: &mut Rng, corpus: bool) {
     out.case(&text, nontrivial);
     out.sample(json!({"history": text}));
     let _ = ShardReplicaState::new(ReplicaId::new(1), ConsistencyLevel::Eventual);
+}
+
+// ---------------------------------------------------------------------------------------------
+// system level: ReplicatedShardedState::apply_recovered_state (what a node runs at start-up)
+// ---------------------------------------------------------------------------------------------
+
+use redis_sim::production::ReplicatedShardedState;
+use redis_sim::replication::ReplicationConfig;
+use redis_sim::streaming::{delta_sink_channel, CheckpointReader, CheckpointWriter, Compression, DeltaSinkReceiver};
+
+const NSHARDS: usize = 16;
+
+/// `hash_key` of production/replicated_state.rs (private there): `DefaultHasher` over the `&str`.
+/// Not trusted: the model correspondence validates it (two keys of one shard share a clock).
+fn shard_of(key: &str) -> usize {
+    use std::hash::{Hash, Hasher};
+    let mut h = std::collections::hash_map::DefaultHasher::new();
+    key.hash(&mut h);
+    (h.finish() as usize) % NSHARDS
+}
+
+/// 6 keys over 4 shards: two shards with two keys each, two with one
+fn key_pool() -> Vec<String> {
+    let mut by: BTreeMap<usize, Vec<String>> = BTreeMap::new();
+    for i in 0..200 {
+        let k = format!("k{}", i);
+        by.entry(shard_of(&k)).or_default().push(k);
+    }
+    let mut pool = Vec::new();
+    for (n, (_, ks)) in by.iter().enumerate() {
+        match n {
+            0 | 1 => pool.extend(ks.iter().take(2).cloned()),
+            2 | 3 => pool.extend(ks.iter().take(1).cloned()),
+            _ => break,
+        }
+    }
+    pool
+}
+
+fn new_state(rid: u64, level: ConsistencyLevel) -> (ReplicatedShardedState, DeltaSinkReceiver) {
+    let mut st = ReplicatedShardedState::new(ReplicationConfig { replica_id: rid, consistency_level: level, ..ReplicationConfig::default() });
+    let (tx, rx) = delta_sink_channel();
+    st.set_delta_sink(tx);
+    (st, rx)
+}
+
+#[derive(Clone)]
+enum LocalOp {
+    Set(String, Vec<u8>, Option<i64>),
+    Del(String),
+    HSet(String, Vec<(String, Vec<u8>)>),
+    HDel(String, Vec<String>),
+    Incr(String),
+}
+
+impl LocalOp {
+    fn key(&self) -> &str {
+        match self {
+            LocalOp::Set(k, ..) | LocalOp::Del(k) | LocalOp::HSet(k, _) | LocalOp::HDel(k, _) | LocalOp::Incr(k) => k,
+        }
+    }
+    fn kind(&self) -> &'static str {
+        match self {
+            LocalOp::Set(..) => "set",
+            LocalOp::Del(_) => "del",
+            LocalOp::HSet(..) => "hset",
+            LocalOp::HDel(..) => "hdel",
+            LocalOp::Incr(_) => "incr",
+        }
+    }
+    fn cmd(&self) -> Command {
+        match self {
+            LocalOp::Set(k, v, ex) => {
+                let mut c = Command::set(k.clone(), SDS::new(v.clone()));
+                if let Command::Set { ex: ref mut e, .. } = c {
+                    *e = *ex;
+                }
+                c
+            }
+            LocalOp::Del(k) => Command::del(k.clone()),
+            LocalOp::HSet(k, fs) => Command::HSet(k.clone(), fs.iter().map(|(f, v)| (SDS::from_str(f), SDS::new(v.clone()))).collect()),
+            LocalOp::HDel(k, fs) => Command::HDel(k.clone(), fs.iter().map(|f| SDS::from_str(f)).collect()),
+            LocalOp::Incr(k) => Command::Incr(k.clone()),
+        }
+    }
+}
+
+fn gen_local(rng: &mut Rng, pool: &[String]) -> LocalOp {
+    let k = rng.pick(pool).clone();
+    match rng.below(10) {
+        0..=2 => LocalOp::Set(k, val(rng), if rng.chance(1, 5) { Some(rng.range(1, 50) as i64) } else { None }),
+        3 | 4 => LocalOp::Del(k),
+        5 | 6 => LocalOp::HSet(k, (0..rng.range(1, 2)).map(|_| (rng.pick(&FIELDS).to_string(), val(rng))).collect()),
+        7 => LocalOp::HDel(k, (0..rng.range(1, 2)).map(|_| rng.pick(&FIELDS).to_string()).collect()),
+        _ => LocalOp::Incr(k),
+    }
+}
+
+struct Issued {
+    /// did the command change the stored value (only then the delta carries a fresh stamp)
+    eff: bool,
+    shard: usize,
+    st: St,
+    delta: ReplicationDelta,
+}
+
+/// run one local command on a real state; emits the `NS` line; returns the delta it shipped
+async fn local(out: &mut Out, st: &ReplicatedShardedState, rx: &DeltaSinkReceiver, op: &LocalOp, text: &mut String) -> Option<Issued> {
+    let key = op.key().to_string();
+    let before = st.snapshot_state().await;
+    let prev = before.get(&key).map(MRv::from_real);
+    let reply = st.execute(op.cmd()).await;
+    let mut ds = rx.drain();
+    let delta = ds.pop();
+    if !ds.is_empty() {
+        out.violation("C08:node:more-than-one-delta", "a single-key command shipped more than one delta", json!({"history": text.clone()}));
+    }
+    if matches!(reply, redis_sim::redis::RespValue::Error(_)) && delta.is_none() {
+        out.count("sys:local-command-rejected-by-executor");
+        return None;
+    }
+    let sh = shard_of(&key);
+    let hk = hex(key.as_bytes());
+    let (opline, eff) = match op {
+        LocalOp::Set(_, v, ex) => (format!("W {} {} {}", hk, hex(v), ex.map(|s| (s as u64 * 1000).to_string()).unwrap_or("-".into())), true),
+        LocalOp::Incr(_) => {
+            // the recorded write carries the resulting string (and the key's remaining TTL)
+            let m = delta.as_ref().map(|d| MRv::from_real(&d.value));
+            let (v, e) = match m.as_ref().map(|m| (&m.crdt, m.exp)) {
+                Some((MCrdt::Lww(l), e)) => (l.v.clone().unwrap_or_default(), e),
+                _ => (vec![], None),
+            };
+            (format!("W {} {} {}", hk, hex(&v), e.map(|x| x.to_string()).unwrap_or("-".into())), true)
+        }
+        LocalOp::Del(_) => (format!("D {}", hk), matches!(prev.as_ref().map(|p| &p.crdt), Some(MCrdt::Lww(_)) | Some(MCrdt::H(_)))),
+        LocalOp::HSet(_, fs) => {
+            let mut l = format!("HW {} {}", hk, fs.len());
+            for (f, v) in fs {
+                l.push_str(&format!(" {} {}", hex(f.as_bytes()), hex(v)));
+            }
+            (l, true)
+        }
+        LocalOp::HDel(_, fs) => {
+            let eff = match prev.as_ref().map(|p| &p.crdt) {
+                Some(MCrdt::H(h)) => fs.iter().any(|f| h.contains_key(f)),
+                _ => false,
+            };
+            let mut l = format!("HD {} {}", hk, fs.len());
+            for f in fs {
+                l.push_str(&format!(" {}", hex(f.as_bytes())));
+            }
+            (l, eff)
+        }
+    };
+    out.count(&format!("sys:op:{}", op.kind()));
+    let ans = match &delta {
+        Some(d) => format!("eff={} delta {}", eff as u8, MRv::from_real(&d.value).show()),
+        None => format!("eff={} none", eff as u8),
+    };
+    let line = format!("NS {} {}", sh, opline);
+    text.push_str(&line);
+    text.push(';');
+    out.op(line, ans);
+    if eff && delta.is_none() {
+        out.violation("C08:effective-write-without-delta", "an effective local write produced no delta", json!({"history": text.clone()}));
+    }
+    delta.map(|d| {
+        let m = MRv::from_real(&d.value);
+        Issued { eff, shard: sh, st: (m.t, m.r), delta: d }
+    })
+}
+
+async fn node_snap(out: &mut Out, st: &ReplicatedShardedState) {
+    let s = st.snapshot_state().await;
+    let v = snap_sorted(&s);
+    let mut ans = v.len().to_string();
+    for (k, m) in &v {
+        ans.push_str(&format!(" {} {} ;", hex(k.as_bytes()), m.show()));
+    }
+    out.op("NSNAP".into(), ans);
+}
+
+async fn system_history(out: &mut Out, rng: &mut Rng, corpus: Option<u8>) {
+    let rid = 1u64;
+    let causal = corpus.is_none() && rng.chance(1, 5);
+    let level = if causal { ConsistencyLevel::Causal } else { ConsistencyLevel::Eventual };
+    let pool = key_pool();
+    let (a, arx) = new_state(rid, level);
+    out.op(format!("NN {} {} {}", rid, causal as u8, NSHARDS), "ok".into());
+    let mut text = format!("NN {} {};", rid, causal as u8);
+    let k0 = pool[0].clone();
+    // the pre-restart history
+    enum Pre {
+        L(LocalOp),
+        Remote(String, MRv),
+    }
+    let script: Vec<Pre> = match corpus {
+        // SET k; SET k; DEL k: the last value is a tombstone
+        Some(0) => vec![Pre::L(LocalOp::Set(k0.clone(), b"v1".to_vec(), None)), Pre::L(LocalOp::Set(k0.clone(), b"v2".to_vec(), None)), Pre::L(LocalOp::Del(k0.clone()))],
+        // HSET h f; HSET h g; HDEL h f; DEL h: a hash whose fields are all tombstones, last
+        Some(1) => vec![
+            Pre::L(LocalOp::HSet(k0.clone(), vec![("f".into(), b"1".to_vec())])),
+            Pre::L(LocalOp::HSet(k0.clone(), vec![("g".into(), b"2".to_vec())])),
+            Pre::L(LocalOp::HDel(k0.clone(), vec!["f".into()])),
+            Pre::L(LocalOp::Del(k0.clone())),
+        ],
+        // a peer's tombstone with a high stamp arrives by gossip, another key of the shard is written
+        Some(_) => vec![
+            Pre::L(LocalOp::Set(k0.clone(), b"v1".to_vec(), None)),
+            Pre::Remote(k0.clone(), MRv { crdt: MCrdt::Lww(MLww { v: None, t: 9, r: 2, tomb: true }), vc: None, exp: None, t: 9, r: 2, rf: None }),
+            Pre::L(LocalOp::Set(pool[1].clone(), b"w".to_vec(), None)),
+        ],
+        None => {
+            let n = rng.range(3, 12);
+            let mut tmax = 0u64;
+            (0..n)
+                .map(|_| {
+                    tmax += 1;
+                    if rng.chance(1, 5) {
+                        let m = peer_value(rng, tmax + 6);
+                        tmax = tmax.max(m.t + 1);
+                        Pre::Remote(rng.pick(&pool).clone(), m)
+                    } else {
+                        Pre::L(gen_local(rng, &pool))
+                    }
+                })
+                .collect()
+        }
+    };
+    // timeline: (snapshot, number of own deltas so far) after every op
+    let mut own: Vec<Issued> = Vec::new();
+    let mut points: Vec<(HashMap<String, ReplicatedValue>, usize)> = vec![(HashMap::new(), 0)];
+    for p in &script {
+        match p {
+            Pre::L(op) => {
+                if let Some(i) = local(out, &a, &arx, op, &mut text).await {
+                    if let Some(last) = own.iter().rev().find(|o| o.shard == i.shard && o.eff) {
+                        if i.eff && !(last.st < i.st) {
+                            out.violation("C08:issued-not-increasing", &format!("shard {}: issued stamp {:?} after {:?}", i.shard, i.st, last.st), json!({"history": text.clone()}));
+                        }
+                    }
+                    own.push(i);
+                }
+            }
+            Pre::Remote(k, m) => {
+                out.count("sys:op:remote");
+                a.apply_remote_deltas(vec![ReplicationDelta::new(k.clone(), m.to_real(), ReplicaId::new(m.r))]);
+                let l = format!("NS {} R {} {}", shard_of(k), hex(k.as_bytes()), m.show());
+                text.push_str(&l);
+                text.push(';');
+                out.op(l, "ok".into());
+            }
+        }
+        points.push((a.snapshot_state().await, own.len()));
+    }
+    node_snap(out, &a).await;
+    // the writes after the restart: the key written last, another key of its shard, then random
+    let last_key = script.iter().rev().find_map(|p| match p { Pre::L(op) => Some(op.key().to_string()), Pre::Remote(k, _) => Some(k.clone()) }).unwrap_or(k0.clone());
+    let mut post: Vec<LocalOp> = vec![LocalOp::Set(last_key.clone(), b"after".to_vec(), None)];
+    if corpus == Some(1) {
+        post = vec![LocalOp::HSet(last_key.clone(), vec![("f".into(), b"after".to_vec())])];
+    }
+    if let Some(other) = pool.iter().find(|k| **k != last_key && shard_of(k) == shard_of(&last_key)) {
+        post.push(LocalOp::Set(other.clone(), b"other".to_vec(), None));
+    }
+    if corpus.is_none() {
+        for _ in 0..rng.range(1, 3) {
+            post.push(gen_local(rng, &pool));
+        }
+    }
+    let through_file = corpus.is_none() && rng.chance(1, 2);
+    let mut nontrivial = false;
+    for (j, (snap, n_own)) in points.iter().enumerate() {
+        out.count("sys:restart");
+        let (b, brx) = new_state(rid, level);
+        out.op(format!("NN {} {} {}", rid, causal as u8, NSHARDS), "ok".into());
+        // the checkpoint as the node would load it
+        let ckpt: Option<HashMap<String, ReplicatedValue>> = if j == 0 && rng.chance(1, 2) {
+            None
+        } else if through_file {
+            out.count("sys:checkpoint:through-writer-reader");
+            let bytes = CheckpointWriter::new(Compression::None).write(snap.clone(), 0, 0).expect("checkpoint write");
+            Some(CheckpointReader::open(&bytes).expect("checkpoint open").load().expect("checkpoint load").state)
+        } else {
+            Some(snap.clone())
+        };
+        let deltas: Vec<ReplicationDelta> = own[*n_own..].iter().map(|i| i.delta.clone()).collect();
+        // recovered stamps per shard, with provenance; the op line (checkpoint in ITS iteration order)
+        let mut recovered: BTreeMap<usize, Vec<(St, &'static str, String)>> = BTreeMap::new();
+        // what a peer holds that has everything the node recovered: the merge of it, per key
+        let mut peer: HashMap<String, ReplicatedValue> = HashMap::new();
+        let mut absorb = |k: &str, v: &ReplicatedValue| {
+            let m = match peer.get(k) {
+                Some(p) => p.merge(v),
+                None => v.clone(),
+            };
+            peer.insert(k.to_string(), m);
+        };
+        let mut line = format!("NRECOVER {}", ckpt.as_ref().map(|c| c.len()).unwrap_or(0));
+        let mut canon: Vec<String> = Vec::new();
+        if let Some(c) = &ckpt {
+            for (k, v) in c.iter() {
+                let m = MRv::from_real(v);
+                line.push_str(&format!(" {} {} {}", shard_of(k), hex(k.as_bytes()), m.show()));
+                canon.push(format!("C {} {}", k, m.show()));
+                absorb(k, v);
+                for s in stamps_of(&m) {
+                    recovered.entry(shard_of(k)).or_default().push((s, "recovered-checkpoint", k.clone()));
+                }
+            }
+        }
+        line.push_str(&format!(" {}", deltas.len()));
+        for d in &deltas {
+            let m = MRv::from_real(&d.value);
+            line.push_str(&format!(" {} {} {}", shard_of(&d.key), hex(d.key.as_bytes()), m.show()));
+            canon.push(format!("D {} {}", d.key, m.show()));
+            absorb(&d.key, &d.value);
+            for s in stamps_of(&m) {
+                recovered.entry(shard_of(&d.key)).or_default().push((s, "recovered-delta", d.key.clone()));
+            }
+        }
+        canon.sort();
+        out.count(&format!("sys:split:ckpt={},deltas={}", if ckpt.as_ref().map(|c| !c.is_empty()).unwrap_or(false) { "some" } else { "none" }, if deltas.is_empty() { "none" } else { "some" }));
+        b.apply_recovered_state(ckpt, deltas);
+        out.op(line, "ok".into());
+        let mut rtext = format!("{}RESTART split={} [{}];", text, j, canon.join(" | "));
+        for op in &post {
+            let Some(i) = local(out, &b, &brx, op, &mut rtext).await else { continue };
+            if !i.eff {
+                continue; // nothing was written: the delta repeats the stored value and its stamp
+            }
+            let replay = json!({"history": rtext.clone(), "issued": [i.st.0, i.st.1], "shard": i.shard});
+            // (1) above every recovered stamp routed to the same shard
+            if let Some(rs) = recovered.get(&i.shard) {
+                nontrivial = true;
+                if let Some((o, prov, k)) = rs.iter().find(|(o, _, _)| !(*o < i.st)) {
+                    out.violation(
+                        &format!("C08:node:stale-stamp:after-{}", prov),
+                        &format!("after apply_recovered_state the {} on '{}' (shard {}) was acknowledged with stamp {:?} although stamp {:?} of '{}' had been recovered for that shard", op.kind(), op.key(), i.shard, i.st, o, k),
+                        replay.clone(),
+                    );
+                }
+            }
+            // (2) above everything this node issued for the shard before the restart (all of it was recovered)
+            if let Some(o) = own.iter().filter(|o| o.shard == i.shard).map(|o| o.st).max() {
+                if !(o < i.st) {
+                    out.violation("C08:node:issued-not-increasing-across-restart", &format!("shard {}: stamp {:?} issued after the restart, {:?} before it", i.shard, i.st, o), replay.clone());
+                }
+            }
+            // (3) a peer that holds everything takes the post-restart write as the winner
+            if let Some(peer) = peer.get(op.key()) {
+                let merged = peer.merge(&i.delta.value);
+                let wins = match op {
+                    LocalOp::Set(_, v, _) => merged.get().map(|x| x.as_bytes().to_vec()) == Some(v.clone()),
+                    LocalOp::Del(_) => merged.get().is_none() && merged.get_hash().map(|h| h.values().all(|l| l.tombstone)).unwrap_or(true),
+                    LocalOp::HSet(_, fs) => fs.iter().rev().take(1).all(|(f, v)| merged.hash_get(f).map(|x| x.as_bytes().to_vec()) == Some(v.clone())),
+                    _ => true,
+                };
+                if !wins {
+                    out.violation("C08:node:post-restart-write-loses-merge", &format!("a peer holding '{}' = {} merges the acknowledged post-restart {} (stamp {:?}) and does not serve it", op.key(), MRv::from_real(peer).show(), op.kind(), i.st), replay.clone());
+                }
+            }
+        }
+        node_snap(out, &b).await;
+    }
+    out.case(&format!("SYS:{}|{:?}", text, post.iter().map(|p| format!("{}:{}", p.kind(), p.key())).collect::<Vec<_>>()), nontrivial);
+    if corpus.is_none() {
+        out.sample(json!({"system-history": text}));
+    }
 }
